@@ -59,6 +59,10 @@ class World:
                 self.write(rel, text=spec)
             elif spec.get('dir'):
                 os.makedirs(os.path.join(self.root, rel), exist_ok=True)
+            elif spec.get('symlink'):
+                p = os.path.join(self.root, rel)
+                os.makedirs(os.path.dirname(p), exist_ok=True)
+                os.symlink(spec['symlink'], p)
             else:
                 self.write(rel, text=spec.get('text', ''), mode=spec.get('mode'))
 
